@@ -97,6 +97,15 @@ Definition notify_of (e : exn) : option (Z * bytes) :=
   | _ => None
   end.
 
+(** the except clauses of _process_create_child_sa_negotiation_req: the notify sent back for a failed negotiation
+    (IkeSaError subclasses without an own clause are reported as NO_PROPOSAL_CHOSEN); None = not caught there *)
+Definition child_reply_notify (e : exn) : option (Z * bytes) :=
+  match e with
+  | NoProposalChosen | InvalidKePayload _ => notify_of e
+  | PayloadNotFound | InvalidSyntax => Some (NOTIFY_NO_PROPOSAL_CHOSEN, [])
+  | StopIteration | IndexError => None
+  end.
+
 (** * Initiator *)
 
 (** process_ike_sa_negotiation_response: the proposal check, then the lookups of generate_ike_sa_key_material *)
